@@ -195,7 +195,19 @@ func (c *Conn) Write(p []byte) (int, error) {
 		s.after(us(s.sc.Cfg.LatC2BUs), "writeErr-cut", func() { c.cut(true, "writeErr") })
 		return pre, ErrSimWrite
 	}
-	c.wbuf = append(c.wbuf, p...)
+	if s.race && len(p) > 1 {
+		// copy the packet to the wire in two halves with a yield in between: two
+		// writers that the library does not exclude from each other produce an
+		// interleaved byte stream, which the framer below rejects
+		h := len(p) / 2
+		c.wbuf = append(c.wbuf, p[:h]...)
+		c.mu.Unlock()
+		runtimeGosched()
+		c.mu.Lock()
+		c.wbuf = append(c.wbuf, p[h:]...)
+	} else {
+		c.wbuf = append(c.wbuf, p...)
+	}
 	type framed struct {
 		n     int
 		first byte
@@ -462,9 +474,16 @@ func (d *SimDialer) DialContext(ctx context.Context) (*mqtt.BaseClient, error) {
 			return nil, err
 		}
 		c := s.newConnLocked(j)
+		c.mu.Lock()
 		c.connecting = true
+		c.mu.Unlock()
 		cli := s.newBase(c)
 		s.log(Rec{Kind: "dialdone", Conn: j})
+		for i := range s.sc.Ops {
+			if s.sc.Ops[i].OnDial == j {
+				s.releaseOp(i) // runs concurrently with SetClient / Connect
+			}
+		}
 		return cli, nil
 	case <-ctx.Done():
 		s.log(Rec{Kind: "dialdone", Conn: j, Err: ctx.Err().Error(), S: "ctx"})
